@@ -2101,7 +2101,11 @@ class Connection(utils.CompositeEventEmitter):
         """
         Helper method to call `utils.cancel_on_event` for the 'disconnection' event
         """
-        return utils.cancel_on_event(self, self.EVENT_DISCONNECTION, awaitable)
+        future = utils.cancel_on_event(self, self.EVENT_DISCONNECTION, awaitable)
+        if self.device.connections.get(self.handle) is not self and not future.done():
+            # Already disconnected: the event will not come
+            future.cancel('abort: disconnected')
+        return future
 
     async def __aenter__(self):
         return self
